@@ -27,5 +27,22 @@ for d, m in rows:
 out.append("")
 for d, m in rows:
     out.append("* **%s** (%s): %s" % (d, m.get("breaks_property"), m.get("idea", "")))
+# behaviour-preserving refactorings (harmless/): every check should stay quiet
+hrows = []
+hdir = os.path.join(ROOT, "harmless")
+if os.path.isdir(hdir):
+    for d in sorted(os.listdir(hdir)):
+        mp = os.path.join(hdir, d, "meta.json")
+        if os.path.exists(mp):
+            hrows.append((d, json.load(open(mp))))
+if hrows:
+    out += ["", "## Behaviour-preserving refactorings (`harmless/`): every check should stay quiet", "",
+            "Produced by independent sub-agents asked for a refactoring of 40-150 lines that changes no observable",
+            "behaviour (tests pass); applied to /repo for one run of every quick check.", "",
+            "| refactoring | " + " | ".join(p[1:] for p in props) + " | what was refactored |", "|---|" + "---|" * (len(props) + 1)]
+    for d, m in hrows:
+        ck = m.get("checks_quick", {})
+        cells = [sym[ck.get(p, {}).get("report", "-")] for p in props]
+        out.append("| %s | %s | %s |" % (d, " | ".join(cells), m.get("idea", "")))
 open(os.path.join(ROOT, "seeded", "RESULTS.md"), "w").write("\n".join(out) + "\n")
 print("\n".join(out[:40]))
